@@ -223,3 +223,279 @@ Proof.
     + apply Forall_app; split; [exact B2|]. apply Forall_app; split; apply apply_cur_no_bsl, good_no_bsl; assumption.
     + apply Forall_app; split; [exact B1|]. apply Forall_app; split; apply apply_cur_no_bsl, good_no_bsl; assumption.
 Qed.
+
+(* ================================================================ B. the formatter on pieces of a line *)
+Definition inert (a : str) : Prop := Forall (fun c => c <> LT /\ c <> ESC /\ c <> BSL) a.
+Lemma inert_no_lt a : inert a -> no_lt a. Proof. apply Forall_impl. intros c (H & _); exact H. Qed.
+Lemma inert_good a : inert a -> Forall good a. Proof. apply Forall_impl. intros c (_ & H1 & H2); split; assumption. Qed.
+Lemma inert_app a b : inert a -> inert b -> inert (a ++ b). Proof. intros; apply Forall_app; split; assumption. Qed.
+
+(* the visible text of a piece *)
+Definition vis (f : formatter) (p : str) : str := match remove_format f p with Ok (_, v) => v | Err _ => p end.
+(* the formatter reads x as the text y, is left as it was, and y holds no '<' *)
+Definition vrel (f : formatter) (x y : str) : Prop :=
+  Forall good x /\ colorize (f_styles f) false (f_stack f) x = Ok (f_stack f, y) /\ no_lt y.
+
+Lemma remove_format_colorize f p : f_kind f <> FNull ->
+  remove_format f p = do x <- colorize (f_styles f) false (f_stack f) p;
+                      Ok ({| f_kind := f_kind f; f_styles := f_styles f; f_stack := fst x |}, snd x).
+Proof. intros Hk. unfold remove_format. destruct (f_kind f); try reflexivity. congruence. Qed.
+Lemma vrel_remove f x y : f_kind f <> FNull -> vrel f x y -> remove_format f x = Ok (f, y).
+Proof. intros Hk (_ & C & _). rewrite remove_format_colorize, C by exact Hk. cbn [bind fst snd]. now rewrite fmt_eta. Qed.
+Lemma vrel_vis f x y : f_kind f <> FNull -> vrel f x y -> vis f x = y.
+Proof. intros Hk H. unfold vis. now rewrite (vrel_remove f x y Hk H). Qed.
+Lemma remove_vrel f x y : f_kind f <> FNull -> Forall good x -> remove_format f x = Ok (f, y) -> no_lt y -> vrel f x y.
+Proof.
+  intros Hk Hg R Hy. split; [exact Hg|]. split; [|exact Hy]. rewrite remove_format_colorize in R by exact Hk.
+  destruct (colorize (f_styles f) false (f_stack f) x) as [[s v]|e]; cbn [bind fst snd] in R; [|discriminate].
+  injection R as R <-. apply (f_equal f_stack) in R. cbn [f_stack] in R. now subst s.
+Qed.
+Lemma vrel_inert f a : inert a -> vrel f a a.
+Proof. intros H. split; [apply inert_good, H|]. split; [apply colorize_no_lt, inert_no_lt, H|apply inert_no_lt, H]. Qed.
+Lemma vrel_nil f : vrel f [] []. Proof. apply vrel_inert. constructor. Qed.
+Lemma vrel_app f x y x' y' : vrel f x y -> vrel f x' y' -> vrel f (x ++ x') (y ++ y').
+Proof.
+  intros (G1 & C1 & L1) (G2 & C2 & L2). split; [apply Forall_app; split; assumption|]. split; [|apply Forall_app; split; assumption].
+  eapply colorize_plain_app; eauto; apply good_no_bsl; assumption.
+Qed.
+Lemma vis_no_lt f p : no_lt p -> vis f p = p.
+Proof. intros H. unfold vis. now rewrite (remove_format_no_lt f p H). Qed.
+Lemma vrel_P (P : N -> Prop) f x y : vrel f x y -> Forall P x -> Forall P y.
+Proof. intros (G & C & _) HP. eapply colorize_plain_P; eauto. apply good_no_bsl, G. Qed.
+
+(* the output decorates: only an ANSI formatter on an output whose _format_output is set *)
+Definition decorated (on : bool) (f : formatter) : bool := on && match f_kind f with FAnsi _ => true | _ => false end.
+Lemma out_write_vrel on f x y : f_kind f <> FNull -> vrel f x y ->
+  exists X, out_write on f x = Ok (f, X) /\ strips X y /\ (decorated on f = false -> X = y).
+Proof.
+  intros Hk (G & C & L).
+  assert (Hy : strips y y).
+  { apply strips_text. apply (colorize_plain_P (fun c => c <> ESC) _ _ _ _ _ (good_no_esc x G) (good_no_bsl x G) C). }
+  assert (Hplain : remove_format f x = Ok (f, y)) by (apply vrel_remove; [exact Hk|repeat split; assumption]).
+  unfold out_write, decorated. destruct on; cbn [andb]; [|exists y; auto].
+  unfold format. destruct (f_kind f) eqn:Ek; [| |congruence].
+  - pose proof (colorize_strips (f_styles f) (f_stack f) x G) as HS. rewrite C in HS.
+    destruct (colorize (f_styles f) true (f_stack f) x) as [[s1 o1]|e]; [|contradiction]. destruct HS as [-> HS].
+    cbn [bind fst snd]. exists o1. rewrite <- Ek, fmt_eta. split; [reflexivity|]. split; [exact HS|discriminate].
+  - rewrite C. cbn [bind fst snd]. rewrite <- Ek, fmt_eta. exists y. auto.
+Qed.
+
+(* right-stripping splits a text into the stripped text and white space *)
+Lemma rstrip_rev_split r : exists sp, r = sp ++ t_rstrip_rev r /\ Forall (fun c => is_space c = true) sp.
+Proof.
+  induction r as [|c r (sp & E & F)]; [exists []; split; [reflexivity|constructor]|]. cbn [t_rstrip_rev].
+  destruct (is_space c) eqn:Ec; [|exists []; split; [reflexivity|constructor]].
+  exists (c :: sp). split; [cbn; congruence|constructor; assumption].
+Qed.
+Lemma rstrip_split s : exists sp, s = t_rstrip s ++ sp /\ Forall (fun c => is_space c = true) sp.
+Proof.
+  unfold t_rstrip. destruct (rstrip_rev_split (rev s)) as (sp & E & F). exists (rev sp). split.
+  - rewrite <- rev_app_distr, <- E, rev_involutive. reflexivity.
+  - apply Forall_rev, F.
+Qed.
+Lemma spaces_ws sp : Forall (fun c => is_space c = true) sp -> Forall ws_char sp.
+Proof. apply Forall_impl. intros c; apply space_ws. Qed.
+Lemma spaces_good sp : Forall (fun c => is_space c = true) sp -> Forall good sp.
+Proof. apply Forall_impl. intros c H. split; intros ->; vm_compute in H; discriminate. Qed.
+
+(* the line as io.write gets it: right-stripped, with the line break.  Its visible text is the visible text of
+   the whole line less the white space the raw line ended with *)
+Lemma vrel_rstrip_nl f x y : vrel f x y ->
+  exists v sp, vrel f (t_rstrip x ++ [10%N]) (v ++ [10%N]) /\ y = v ++ sp /\ Forall (fun c => is_space c = true) sp.
+Proof.
+  intros (G & C & L). destruct (rstrip_split x) as (sp & E & F). set (r := t_rstrip x) in *.
+  assert (Gr : Forall good r /\ Forall good sp) by (rewrite E in G; apply Forall_app in G; exact G). destruct Gr as [Gr Gs].
+  rewrite E in C. rewrite colorize_plain_ws in C; [|apply good_no_bsl, Gr|apply spaces_ws, F|apply good_no_bsl, Gs].
+  destruct (colorize (f_styles f) false (f_stack f) r) as [[s v]|e] eqn:Cr; cbn [bind fst snd] in C; [|discriminate].
+  injection C as -> <-. exists v, sp. split; [|split; [reflexivity|exact F]].
+  assert (NLw : Forall ws_char [10%N]) by (constructor; [apply space_ws; reflexivity|constructor]).
+  split; [apply Forall_app; split; [exact Gr|repeat constructor; discriminate]|]. split.
+  - rewrite colorize_plain_ws; [|apply good_no_bsl, Gr|exact NLw|repeat constructor; discriminate]. rewrite Cr. reflexivity.
+  - apply Forall_app in L as [L _]. apply Forall_app; split; [exact L|repeat constructor; discriminate].
+Qed.
+
+(* ================================================================ C. good cells; fitting commutes with taking the visible text *)
+Lemma has_lt_false c : has_lt c = false <-> no_lt c.
+Proof.
+  unfold has_lt, no_lt. induction c as [|x c IH]; cbn [existsb]; [split; [constructor|reflexivity]|].
+  rewrite Bool.orb_false_iff, IH. split.
+  - intros [H1 H2]. constructor; [|exact H2]. intros ->. unfold LT in H1. rewrite N.eqb_refl in H1. discriminate.
+  - intros H. inversion H as [|? ? Hx Hc]; subst. split; [|exact Hc]. apply N.eqb_neq. congruence.
+Qed.
+(* good markup: no ESC, no backslash; the formatter reads the cell, is left as it was, and the visible text holds
+   no '<'; a cell with markup holds no line break *)
+Definition good_cell (f : formatter) (c : str) : Prop :=
+  Forall good c /\ (has_lt c = true -> ~ In 10%N c) /\ exists v, remove_format f c = Ok (f, v) /\ no_lt v.
+Lemma good_cell_plain f c : Forall good c -> no_lt c -> good_cell f c.
+Proof.
+  intros G L. split; [exact G|]. split.
+  - apply has_lt_false in L. congruence.
+  - exists c. split; [apply remove_format_no_lt, L|exact L].
+Qed.
+Lemma good_cell_nil f : good_cell f []. Proof. apply good_cell_plain; constructor. Qed.
+Lemma good_cell_vrel f c : f_kind f <> FNull -> good_cell f c -> vrel f c (vis f c).
+Proof. intros Hk (G & _ & v & R & L). unfold vis. rewrite R. apply remove_vrel; assumption. Qed.
+
+Lemma measure_good f cs : Forall (good_cell f) cs -> measure f cs = Ok (f, map (fun c => zlen (vis f c)) cs).
+Proof.
+  induction 1 as [|c cs (_ & _ & v & R & _) _ IH]; [reflexivity|]. cbn [measure map]. unfold vis at 1. rewrite R. cbn [bind fst snd].
+  rewrite IH. reflexivity.
+Qed.
+
+(* what textwrap returns consists of characters of the text and white space *)
+Lemma in_join sep c : forall ls, In c (join_with sep ls) -> c = sep \/ In c (concat ls).
+Proof.
+  induction ls as [|l ls IH]; [intros []|]. cbn [join_with concat]. destruct ls as [|l2 ls].
+  - cbn [concat]. rewrite app_nil_r. auto.
+  - intros H. apply in_app_or in H as [H|[H|H]]; [right; apply in_or_app; auto|auto|].
+    destruct (IH H) as [E|E]; [auto|right; apply in_or_app; auto].
+Qed.
+Lemma in_munge c t : In c (munge t) -> c = SP \/ In c t.
+Proof. unfold munge. intros H. apply in_map_iff in H as (x & E & Hx). destruct (tw_space x); [auto|subst; auto]. Qed.
+Lemma wrap_chars (P : N -> Prop) t w ls : (forall c, is_space c = true -> P c) -> Forall P t -> wrap t w = Ok ls ->
+  Forall P (join_with 10%N ls).
+Proof.
+  intros Hsp Ht W. apply Forall_forall. intros c Hc. destruct (in_join _ _ _ Hc) as [->|Hin]; [apply Hsp; reflexivity|].
+  destruct (is_space c) eqn:Ec; [apply Hsp, Ec|].
+  assert (Hf : In c (filter (fun c => negb (is_space c)) (concat ls))) by (apply filter_In; split; [exact Hin|now rewrite Ec]).
+  rewrite (wrap_keeps_text_lemma _ _ _ W) in Hf. apply filter_In in Hf as [Hf _].
+  destruct (in_munge _ _ Hf) as [->|Hin']; [apply Hsp; reflexivity|]. rewrite Forall_forall in Ht. apply Ht, Hin'.
+Qed.
+Lemma space_not_lt c : is_space c = true -> c <> LT. Proof. intros H ->. vm_compute in H. discriminate. Qed.
+Lemma space_good c : is_space c = true -> good c. Proof. intros H. split; intros ->; vm_compute in H; discriminate. Qed.
+
+Section Sim.
+  Variable f : formatter.
+  Let v := vis f.
+  Definition vst (st : fitst) : fitst :=
+    {| f_rows := map (map (vis f)) (f_rows st); f_lens := f_lens st; f_cols := f_cols st; f_wraps := f_wraps st; f_cuts := f_cuts st |}.
+  Lemma vis_nil : vis f [] = []. Proof. apply vis_no_lt. constructor. Qed.
+  Lemma set_nth_map {X Y} (g : X -> Y) k x l : set_nth k (g x) (map g l) = map g (set_nth k x l).
+  Proof. revert k; induction l as [|y l IH]; intros [|k]; cbn; congruence. Qed.
+
+  Lemma wrap_cell_sim w cu cell len c' l' wr cu' : wrap_cell has_lt w cu cell len = Ok (c', l', wr, cu') ->
+    wrap_cell (fun _ => false) w cu (v cell) len = Ok (v c', l', wr, cu').
+  Proof.
+    unfold wrap_cell, v. destruct (w <? len); [|intros H; injection H as <- <- <- <-; reflexivity].
+    destruct (has_lt cell) eqn:Hl; [discriminate|]. apply has_lt_false in Hl. rewrite (vis_no_lt f cell Hl).
+    destruct (wrap cell w) as [ls|e] eqn:W; cbn [bind]; [|discriminate]. intros H; injection H as <- <- <- <-.
+    rewrite vis_no_lt; [reflexivity|]. apply (wrap_chars _ cell w ls space_not_lt Hl W).
+  Qed.
+  Lemma wrap_col_sim col w : forall rows lens wr cu rs ls wr' cu',
+    wrap_col has_lt col w rows lens wr cu = Ok (rs, ls, wr', cu') ->
+    wrap_col (fun _ => false) col w (map (map v) rows) lens wr cu = Ok (map (map v) rs, ls, wr', cu').
+  Proof.
+    induction rows as [|row rows IH]; intros lens wr cu rs ls wr' cu' H; cbn [wrap_col map] in *.
+    - injection H as <- <- <- <-. reflexivity.
+    - destruct lens as [|ln lens]; [injection H as <- <- <- <-; reflexivity|].
+      destruct (wrap_cell has_lt w cu (nth col row []) (nth col ln 0)) as [[[[c' l'] wrapped] cu1]|k] eqn:WC; cbn [bind] in H; [|discriminate].
+      destruct (wrap_col has_lt col w rows lens (wr || wrapped) cu1) as [[[[rs1 ls1] wr1] cu2]|k] eqn:WR; cbn [bind] in H; [|discriminate].
+      injection H as <- <- <- <-.
+      replace (nth col (map v row) []) with (v (nth col row [])) by (unfold v; rewrite <- vis_nil at 2; symmetry; apply map_nth).
+      rewrite (wrap_cell_sim _ _ _ _ _ _ _ _ WC). cbn [bind]. rewrite (IH _ _ _ _ _ _ _ WR). cbn [bind map].
+      now rewrite set_nth_map.
+  Qed.
+  Lemma fit_column_sim col w st st' : fit_column has_lt col w st = Ok st' -> fit_column (fun _ => false) col w (vst st) = Ok (vst st').
+  Proof.
+    unfold fit_column. cbn [vst f_rows f_lens f_cols f_wraps f_cuts]. intros H.
+    destruct (wrap_col has_lt col w (f_rows st) (f_lens st) (f_wraps st) (f_cuts st)) as [[[[rs ls] wr] cu]|k] eqn:WR; cbn [bind] in H; [|discriminate].
+    injection H as <-. fold v. rewrite (wrap_col_sim _ _ _ _ _ _ _ _ _ _ WR). reflexivity.
+  Qed.
+  Lemma distribute_sim share av : forall long col actual rem st st',
+    distribute has_lt share av long col actual rem st = Ok st' ->
+    distribute (fun _ => false) share av long col actual rem (vst st) = Ok (vst st').
+  Proof.
+    induction long as [|[len|] r IH]; intros col actual rem st st' H; cbn [distribute] in *.
+    - injection H as <-. reflexivity.
+    - destruct (if count_some r =? 0 then Ok rem else if actual =? 0 then Err (Other 9)
+                else Ok (Z.max 1 (Z.min (share len actual av) (rem - count_some r)))) as [w|k]; cbn [bind] in *; [|discriminate].
+      destruct (fit_column has_lt col w st) as [st1|k] eqn:F1; cbn [bind] in H; [|discriminate].
+      rewrite (fit_column_sim _ _ _ _ F1). cbn [bind]. exact (IH _ _ _ _ _ H).
+    - exact (IH _ _ _ _ _ H).
+  Qed.
+  Lemma pad_row_map n r : pad_row n (map v r) = map v (pad_row n r).
+  Proof.
+    unfold pad_row. rewrite map_app, map_length. f_equal. unfold v. generalize (n - length r)%nat as k.
+    induction k as [|k IH]; cbn [repeat map]; [reflexivity|]. rewrite vis_nil. f_equal. exact IH.
+  Qed.
+  Lemma init_state_l_sim n cells lens st : init_state_l n cells lens = Ok st -> init_state_l n (map v cells) lens = Ok (vst st).
+  Proof.
+    unfold init_state_l. intros H.
+    assert (E : Ok {| f_rows := map (pad_row n) (chunk (length cells) n cells);
+                      f_lens := map (pad_lens n) (chunk (length lens) n lens);
+                      f_cols := col_lengths n (map (pad_lens n) (chunk (length lens) n lens)); f_wraps := false; f_cuts := false |} = Ok st).
+    { destruct n; [destruct cells; [exact H|discriminate]|exact H]. }
+    injection E as <-. unfold vst. cbn [f_rows f_lens f_cols f_wraps f_cuts].
+    assert (R : map (pad_row n) (chunk (length (map v cells)) n (map v cells)) = map (map (vis f)) (map (pad_row n) (chunk (length cells) n cells))).
+    { rewrite map_length, chunk_map, !map_map. apply map_ext. intros r. apply pad_row_map. }
+    destruct n; [destruct cells; [reflexivity|discriminate]|]. rewrite R. reflexivity.
+  Qed.
+  Theorem fit_g_sim share max_total n cells lens st : fit_g has_lt share max_total n cells lens = Ok st ->
+    fit_g (fun _ => false) share max_total n (map v cells) lens = Ok (vst st).
+  Proof.
+    unfold fit_g. intros H. destruct (init_state_l n cells lens) as [st0|k] eqn:E0; cbn [bind] in H; [|discriminate].
+    rewrite (init_state_l_sim _ _ _ _ E0). cbn [bind]. change (f_cols (vst st0)) with (f_cols st0).
+    destruct (zsum (f_cols st0) <=? max_total); [injection H as <-; reflexivity|].
+    destruct n; [discriminate|]. destruct (short_loop (S (S n)) (Z.of_nat (S n)) (map Some (f_cols st0)) max_total) as [[av long]|]; [|discriminate].
+    exact (distribute_sim _ _ _ _ _ _ _ _ H).
+  Qed.
+
+  (* the cells of the fitted state are good cells again *)
+  Definition rows_good (rows : list (list str)) : Prop := Forall (Forall (good_cell f)) rows.
+  Lemma wrap_cell_good w cu cell len c' l' wr cu' : good_cell f cell -> wrap_cell has_lt w cu cell len = Ok (c', l', wr, cu') -> good_cell f c'.
+  Proof.
+    intros Hc. unfold wrap_cell. destruct (w <? len); [|intros H; injection H as <- _ _ _; exact Hc].
+    destruct (has_lt cell) eqn:Hl; [discriminate|]. apply has_lt_false in Hl.
+    destruct (wrap cell w) as [ls|e] eqn:W; cbn [bind]; [|discriminate]. intros H; injection H as <- _ _ _.
+    apply good_cell_plain; [apply (wrap_chars _ cell w ls space_good (proj1 Hc) W)|apply (wrap_chars _ cell w ls space_not_lt Hl W)].
+  Qed.
+  Lemma nth_good col row : Forall (good_cell f) row -> good_cell f (nth col row []).
+  Proof. intros H. revert col. induction H as [|c r Hc _ IH]; intros [|col]; cbn [nth]; auto; apply good_cell_nil. Qed.
+  Lemma wrap_col_good col w : forall rows lens wr cu rs ls wr' cu', rows_good rows ->
+    wrap_col has_lt col w rows lens wr cu = Ok (rs, ls, wr', cu') -> rows_good rs.
+  Proof.
+    induction rows as [|row rows IH]; intros lens wr cu rs ls wr' cu' HG H; cbn [wrap_col] in H.
+    - injection H as <- _ _ _. constructor.
+    - destruct lens as [|ln lens]; [injection H as <- _ _ _; constructor|]. apply Forall_cons_iff in HG as [Hrow Hrows].
+      destruct (wrap_cell has_lt w cu (nth col row []) (nth col ln 0)) as [[[[c' l'] wrapped] cu1]|k] eqn:WC; cbn [bind] in H; [|discriminate].
+      destruct (wrap_col has_lt col w rows lens (wr || wrapped) cu1) as [[[[rs1 ls1] wr1] cu2]|k] eqn:WR; cbn [bind] in H; [|discriminate].
+      injection H as <- _ _ _. constructor; [|eapply IH; eauto].
+      apply Forall_set_nth; [exact Hrow|]. eapply wrap_cell_good; [|exact WC]. apply nth_good, Hrow.
+  Qed.
+  Lemma distribute_good share av : forall long col actual rem st st', rows_good (f_rows st) ->
+    distribute has_lt share av long col actual rem st = Ok st' -> rows_good (f_rows st').
+  Proof.
+    induction long as [|[len|] r IH]; intros col actual rem st st' HG H; cbn [distribute] in H.
+    - injection H as <-. exact HG.
+    - destruct (if count_some r =? 0 then Ok rem else if actual =? 0 then Err (Other 9)
+                else Ok (Z.max 1 (Z.min (share len actual av) (rem - count_some r)))) as [w|k]; cbn [bind] in H; [|discriminate].
+      destruct (fit_column has_lt col w st) as [st1|k] eqn:F1; cbn [bind] in H; [|discriminate].
+      apply (IH _ _ _ _ _ ) in H; [exact H|]. unfold fit_column in F1.
+      destruct (wrap_col has_lt col w (f_rows st) (f_lens st) (f_wraps st) (f_cuts st)) as [[[[rs ls] wr] cu]|k] eqn:WR; cbn [bind] in F1; [|discriminate].
+      injection F1 as <-. cbn [f_rows]. eapply wrap_col_good; eauto.
+    - eapply IH; eauto.
+  Qed.
+  Lemma Forall_firstn' {X} (P : X -> Prop) k : forall l, Forall P l -> Forall P (firstn k l).
+  Proof. induction k as [|k IH]; intros l H; [constructor|]. destruct H; cbn [firstn]; constructor; auto. Qed.
+  Lemma Forall_skipn' {X} (P : X -> Prop) k : forall l, Forall P l -> Forall P (skipn k l).
+  Proof. induction k as [|k IH]; intros l H; [exact H|]. destruct H; cbn [skipn]; [constructor|auto]. Qed.
+  Lemma chunk_Forall {X} (P : X -> Prop) n : forall fuel l, Forall P l -> Forall (Forall P) (chunk fuel n l).
+  Proof.
+    induction fuel as [|fu IH]; intros l H; cbn [chunk]; [constructor|]. destruct l as [|x l]; [constructor|].
+    constructor; [apply Forall_firstn', H|apply IH, Forall_skipn', H].
+  Qed.
+  Theorem fit_g_good share max_total n cells lens st : Forall (good_cell f) cells ->
+    fit_g has_lt share max_total n cells lens = Ok st -> rows_good (f_rows st).
+  Proof.
+    intros HG. unfold fit_g. intros H. destruct (init_state_l n cells lens) as [st0|k] eqn:E0; cbn [bind] in H; [|discriminate].
+    assert (G0 : rows_good (f_rows st0)).
+    { unfold init_state_l in E0.
+      assert (R : f_rows st0 = map (pad_row n) (chunk (length cells) n cells)).
+      { destruct n; [destruct cells; [|discriminate]|]; injection E0 as <-; reflexivity. }
+      rewrite R. unfold rows_good. apply Forall_map. eapply Forall_impl; [|apply (chunk_Forall (good_cell f) n _ _ HG)].
+      intros r Hr. unfold pad_row. apply Forall_app; split; [exact Hr|]. clear. induction (n - length r)%nat; cbn; constructor; auto. apply good_cell_nil. }
+    destruct (zsum (f_cols st0) <=? max_total); [injection H as <-; exact G0|].
+    destruct n; [discriminate|]. destruct (short_loop (S (S n)) (Z.of_nat (S n)) (map Some (f_cols st0)) max_total) as [[av long]|]; [|discriminate].
+    eapply distribute_good; eauto.
+  Qed.
+End Sim.
